@@ -294,7 +294,46 @@ func vpH_C20_member() {
 	col := ItemCollection{IRI("https://h.ex/a"), x, &Object{ID: "https://h.ex/b", Type: NoteType}}
 	var what string
 	panicked := false
-	switch vpChoice(8) {
+	switch vpChoice(21) {
+	case 8:
+		what = "OnActor"
+		panicked = vpMayPanic(func() { _ = OnActor(col, func(p *Actor) error { return nil }) })
+	case 9:
+		what = "OnActivity"
+		panicked = vpMayPanic(func() { _ = OnActivity(col, func(p *Activity) error { return nil }) })
+	case 10:
+		what = "OnIntransitiveActivity"
+		panicked = vpMayPanic(func() { _ = OnIntransitiveActivity(col, func(p *IntransitiveActivity) error { return nil }) })
+	case 11:
+		what = "OnQuestion"
+		panicked = vpMayPanic(func() { _ = OnQuestion(col, func(p *Question) error { return nil }) })
+	case 12:
+		what = "OnPlace"
+		panicked = vpMayPanic(func() { _ = OnPlace(col, func(p *Place) error { return nil }) })
+	case 13:
+		what = "OnProfile"
+		panicked = vpMayPanic(func() { _ = OnProfile(col, func(p *Profile) error { return nil }) })
+	case 14:
+		what = "OnRelationship"
+		panicked = vpMayPanic(func() { _ = OnRelationship(col, func(p *Relationship) error { return nil }) })
+	case 15:
+		what = "OnTombstone"
+		panicked = vpMayPanic(func() { _ = OnTombstone(col, func(p *Tombstone) error { return nil }) })
+	case 16:
+		what = "OnLink"
+		panicked = vpMayPanic(func() { _ = OnLink(col, func(p *Link) error { return nil }) })
+	case 17:
+		what = "OnCollectionIntf"
+		panicked = vpMayPanic(func() { _ = OnCollectionIntf(col, func(c CollectionInterface) error { _ = c.Count(); return nil }) })
+	case 18:
+		what = "OnItem"
+		panicked = vpMayPanic(func() { _ = OnItem(col, func(it Item) error { _ = IsNil(it); return nil }) })
+	case 19:
+		what = "ItemCollection.Remove"
+		panicked = vpMayPanic(func() { col.Remove(IRI("https://h.ex/b")) })
+	case 20:
+		what = "ItemCollection.Append-present"
+		panicked = vpMayPanic(func() { _ = col.Append(IRI("https://h.ex/b")) })
 	case 0:
 		what = "OnObject"
 		panicked = vpMayPanic(func() { _ = OnObject(col, func(p *Object) error { return nil }) })
